@@ -552,6 +552,8 @@ pub fn exch_step_2a(
         if !is_zero(&sk, klen) {
             break;
         }
+        // nothing in this loop is random: retrying can never produce a different key
+        return Err(Sm9Error::KdfHashError);
     }
     Ok(sk)
 }
